@@ -244,3 +244,50 @@ func hostilePrelude(rng *hk.RNG) {
 	}
 	GenerateKey(newScript(append(make([]byte, 32), rng.Bytes(64)...)))
 }
+
+// rareNonceCases pairs every fixture nonce k whose x1 = x([k]G) lies in a 2^-31 class (see
+// ref.RareNonce) with the digests that make e + x1 cross a multiple of n in the unusual way:
+// for class "hi" e + x1 >= 2n needs e close to 2^256 (two subtractions of n), with the exact
+// boundaries e = 2n - x1 - 1 (r = n-1), 2n - x1 (r = 0: retry) and 2n - x1 + 1 (r = 1); for class
+// "lo" r = e + x1 keeps leading zero bytes for tiny e, and e = n - x1 gives r = 0.
+type rareCase struct {
+	k     *big.Int
+	e     []byte
+	label string
+}
+
+func rareNonceCases(rng *hk.RNG) ([]rareCase, error) {
+	rn, err := ref.LoadRareNonces()
+	if err != nil {
+		return nil, err
+	}
+	var out []rareCase
+	twoN := new(big.Int).Lsh(nI, 1)
+	for _, f := range rn {
+		k, _ := new(big.Int).SetString(f.K, 16)
+		x1, _ := new(big.Int).SetString(f.X, 16)
+		var es []*big.Int
+		if f.Class == "hi" {
+			edge := new(big.Int).Sub(twoN, x1) // smallest e with e + x1 >= 2n
+			es = append(es, new(big.Int).Sub(b256, bi(1)), new(big.Int).Sub(b256, bi(2)), new(big.Int).Sub(edge, bi(1)), edge, new(big.Int).Add(edge, bi(1)),
+				new(big.Int).SetBytes(append([]byte{0xff, 0xff, 0xff, 0xff}, rng.Bytes(28)...)), new(big.Int).Set(nI), new(big.Int).Set(nm1), bi(0), new(big.Int).SetBytes(rng.Bytes(32)))
+			for j := 0; j < 4; j++ {
+				// uniformly between the edge and 2^256-1
+				span := new(big.Int).Sub(b256, edge)
+				v := new(big.Int).Mod(new(big.Int).SetBytes(rng.Bytes(40)), span)
+				es = append(es, v.Add(v, edge))
+			}
+		} else {
+			edge := new(big.Int).Sub(nI, x1) // e + x1 = n
+			es = append(es, bi(0), bi(1), bi(255), new(big.Int).Sub(edge, bi(1)), edge, new(big.Int).Add(edge, bi(1)), new(big.Int).Sub(b256, bi(1)), new(big.Int).SetBytes(rng.Bytes(32)),
+				new(big.Int).SetBytes(rng.Bytes(3)), new(big.Int).SetBytes(rng.Bytes(27)))
+		}
+		for _, e := range es {
+			if e.Sign() < 0 || e.Cmp(b256) >= 0 {
+				continue
+			}
+			out = append(out, rareCase{k: k, e: ref.B32(e), label: "rare-nonce-" + f.Class})
+		}
+	}
+	return out, nil
+}
